@@ -23,17 +23,58 @@ def declared_abstractions(repo: Repo) -> dict[str, dict]:
     m = repo.mod("sevm")
     out = {}
 
-    def parse_fn(call: ast.Call):
-        if not (isinstance(call, ast.Call) and call_name(call) == "Function" and call.args):
+    from hsa.fold import Folder
+
+    def sort_width(a, env, local_defs):
+        # BitVecSort256 | BitVecSorts[256] | BitVecSorts[<const expr>] | a local bound to one of these
+        if isinstance(a, ast.Name) and a.id in local_defs:
+            a = local_defs[a.id]
+        mm = _SORT.match(src(a))
+        if mm:
+            return int(mm.group(1) or mm.group(2))
+        if isinstance(a, ast.Subscript) and src(a.value) == "BitVecSorts":
+            v = Folder(repo, "sevm", env).fold(a.slice)
+            return v if isinstance(v, int) else None
+        return None
+
+    def parse_fn(call, env=None, local_defs=None, depth=0):
+        env = env or {}
+        local_defs = local_defs or {}
+        if not isinstance(call, ast.Call):
             return None
-        name = fold_in(repo, "sevm", call.args[0])
-        if not isinstance(name, str):
-            return None
-        sorts = []
-        for a in call.args[1:]:
-            mm = _SORT.match(src(a))
-            sorts.append(int(mm.group(1) or mm.group(2)) if mm else None)
-        return name, sorts
+        if call_name(call) == "Function" and call.args:
+            name = Folder(repo, "sevm", env).fold(call.args[0])
+            if not isinstance(name, str):
+                return None
+            return name, [sort_width(a, env, local_defs) for a in call.args[1:]]
+        # a declaration helper of the module: fold it on the constant arguments of this call
+        h = m.defs.get(call_name(call)) if isinstance(call.func, ast.Name) else None
+        if isinstance(h, ast.FunctionDef) and depth < 2:
+            params = [a.arg for a in h.args.args]
+            defaults = dict(zip(params[len(params) - len(h.args.defaults):], h.args.defaults))
+            env2 = {}
+            for i, pn in enumerate(params):
+                node = call.args[i] if i < len(call.args) else next((k.value for k in call.keywords if k.arg == pn), defaults.get(pn))
+                if node is None:
+                    return None
+                v = Folder(repo, "sevm", env).fold(node)
+                if v is UNKNOWN:
+                    return None
+                env2[pn] = v
+            body = [x for x in h.body if not (isinstance(x, ast.Expr) and isinstance(x.value, ast.Constant))]
+            defs = {}
+            for x in body[:-1]:
+                if isinstance(x, ast.Assign) and len(x.targets) == 1 and isinstance(x.targets[0], ast.Name):
+                    defs[x.targets[0].id] = x.value
+                else:
+                    return None
+            if body and isinstance(body[-1], ast.Return) and isinstance(body[-1].value, ast.Call):
+                return parse_fn(body[-1].value, env2, defs, depth + 1)
+        return None
+
+    def add(sym, var, key, node, p):
+        if p and p[0].startswith("f_evm"):
+            out[sym] = {"name": p[0], "sorts": p[1], "node": node, "key": key, "var": var}
 
     for st in m.tree.body:
         if not (isinstance(st, ast.Assign) and len(st.targets) == 1 and isinstance(st.targets[0], ast.Name)):
@@ -41,14 +82,18 @@ def declared_abstractions(repo: Repo) -> dict[str, dict]:
         var = st.targets[0].id
         if isinstance(st.value, ast.Dict):
             for k, v in zip(st.value.keys, st.value.values):
-                p = parse_fn(v)
-                if p and p[0].startswith("f_evm"):
-                    kk = fold_in(repo, "sevm", k)
-                    out[f"{var}[{kk}]"] = {"name": p[0], "sorts": p[1], "node": v, "key": kk, "var": var}
+                kk = fold_in(repo, "sevm", k)
+                add(f"{var}[{kk}]", var, kk, v, parse_fn(v))
+        elif isinstance(st.value, ast.DictComp) and len(st.value.generators) == 1 and isinstance(st.value.generators[0].target, ast.Name) and not st.value.generators[0].ifs:
+            g = st.value.generators[0]
+            it = fold_in(repo, "sevm", g.iter)
+            if isinstance(it, (tuple, list)):
+                for item in it:
+                    env = {g.target.id: item}
+                    kk = Folder(repo, "sevm", env).fold(st.value.key)
+                    add(f"{var}[{kk}]", var, kk, st.value.value, parse_fn(st.value.value, env))
         else:
-            p = parse_fn(st.value)
-            if p and p[0].startswith("f_evm"):
-                out[var] = {"name": p[0], "sorts": p[1], "node": st.value, "key": None, "var": var}
+            add(var, var, None, st.value, parse_fn(st.value))
     for sym, d in out.items():
         mm = re.match(r"^f_evm_([a-z]+)_(\d+)$", d["name"])
         d["op"] = mm.group(1) if mm else None
